@@ -299,7 +299,10 @@ def map_units(ctx, src, with_insert_const):
     # a const_cast<Item&>(...) around the lookup (the repair of the const overload) is the identity on the C model
     CC = [Rule(r'\(\(Item&\)\((.*?)\)\);', r'\1;', regex=True)]
     F(r'ValueT& at\(const KeyT& k\)', 'ValueT* LRUMap_at(LRUMap* self, KeyT k)', AT, ret_zero='0', may_throw=['umap_at'])
-    F(r'const ValueT& at\(const KeyT& k\) const', 'const ValueT* LRUMap_at_const(LRUMap* self, KeyT k)', CC + AT, ret_zero='0', may_throw=['umap_at'])
+    # (the const overload may also return the member of the looked-up element directly: `return items.at(k).value;`)
+    AT_DIRECT = [Rule(r'\breturn\s+self->items\.at\(k\)\.value\s*;', 'const Item* verif_item = self->items.at(k); return &verif_item->value;', count=None, regex=True)]
+    AT_C = ref_rules('item', 'Item', decl_count=None) + [Rule(r'return\s+item->value\s*;', 'return &item->value;', count=None, regex=True)]
+    F(r'const ValueT& at\(const KeyT& k\) const', 'const ValueT* LRUMap_at_const(LRUMap* self, KeyT k)', AT_DIRECT + CC + AT_C, ret_zero='0', may_throw=['umap_at'])
     F(r'size_t item_size\(const KeyT& k\) const', 'size_t LRUMap_item_size(const LRUMap* self, KeyT k)',
       [Rule(r'return\s+self->items\.at\(k\)\.(.*?);', r'const Item* item = self->items.at(k); return item->\1;', count=1, regex=True)],
       ret_zero='0', may_throw=['umap_at'])
